@@ -139,12 +139,12 @@ func hitByAncestorOp(l layer, f int) bool {
 // emitTwoExtractors: generate cases in which two extractors read the same files. Off until the repair is in /repo: the
 // trace's cache is keyed by (location, layer) only, so the second extractor's packages are looked up among the first one's
 // (fix-imgb-j/1.diff).
-const emitTwoExtractors = false
+const emitTwoExtractors = true
 
 // emitRetarget: generate op t (a layer rewrites the TARGET of a symlinked location without touching the link). The unchanged
 // code skips such a layer (known finding C05/location-content-depends-on-other-paths): switch on together with the
 // finding's line in known_findings.txt.
-const emitRetarget = false
+const emitRetarget = true
 
 const emitNoPURL = true
 
